@@ -36,9 +36,9 @@ var fixed = []core.Case{
 }
 
 func (prop) Gen(r *core.Rand, tier string) []core.Case {
-	n := 45
+	n := 100
 	if tier == "thorough" {
-		n = 700
+		n = 1200
 	}
 	cs := append([]core.Case(nil), fixed...)
 	for i := 0; i < n; i++ {
